@@ -87,10 +87,13 @@ def _bpm_text(rng):
     return f"{rng.randint(1, 999)}.{rng.randint(0, 9999999):07d}".rstrip("0").rstrip(".") or "1"
 
 
-def _realise(rng, objs):
+def _realise(rng, objs, keep_together=False):
     """objs: list of (pos Fraction in [0,1), id) for one (measure, channel) -> list of data strings (overlay)."""
     rng.shuffle(objs)
     nparts = rng.choice([1, 1, 1, 2, 2, 3]) if len(objs) > 1 else 1
+    if keep_together:
+        nparts = 1
+        objs.sort()                                      # if the group must be split, its lines stay in time order
     parts = [objs[i::nparts] for i in range(nparts)]
     out = []
     for part in parts:
@@ -116,7 +119,7 @@ def _realise(rng, objs):
 def gen_text(rng, lname):
     cfg = _layout(lname)
     lanes = [(k.decode(), v) for k, v in cfg.items() if isinstance(v, int) and not isinstance(v, bool)]
-    wild = rng.random() < 0.15                      # tempo objects at arbitrary subdivisions (pairwise off-grid possible)
+    wild = rng.random() < 0.2                      # tempo objects at arbitrary subdivisions (pairwise off-grid possible)
     M = rng.choice([1, 2, 3, 4, 4, 8, 8, 50, 999])
     hdr = []
     # --- tables
@@ -192,11 +195,15 @@ def gen_text(rng, lname):
         per.setdefault((m, rng.choice(["01", "04", "06", "1A", "D1"])), []).append((Fr(rng.randrange(k), k), rng.choice(note_ids)))
     data = []
     for (m, ch) in sorted(per):
-        for d in _realise(rng, list(per[(m, ch)])):
+        tail_here = lnobj is not None and any(ident == lnobj for _, ident in per[(m, ch)])
+        for d in _realise(rng, list(per[(m, ch)]), keep_together=tail_here and rng.random() < 0.92):
             data.append(f"#{m:03d}{ch}:{d}")
     if rng.random() < 0.05:
         data.append(f"#{rng.randint(0, M):03d}{use[0][0]}:" + rng.choice(["0", "010", "", "00"]))     # odd / empty data
     r = rng.random()
+    has_tail = lnobj is not None and any(ident == lnobj for objs in per.values() for _, ident in objs)
+    if has_tail and r >= 0.6 and rng.random() < 0.85:
+        r = rng.random() * 0.6                           # keep most LN texts in time order (the other order is a known finding)
     if r < 0.45:
         lines = hdr + data                               # time order
     elif r < 0.6:
